@@ -39,7 +39,9 @@ def requests(tier, mc=False):
         for n in range(1, depth + 1):
             for t in itertools.product(segs, repeat=n):
                 paths.append("/" + "/".join(t))
-    paths += ["", "*", "a", "ab/c", "/:x", "/*", "/a/*", "/a/:x", "/c", "/a/c/b", "//", "/a/b/a/b", "a/b", "/\xff", "/a%2fb", "b/"]
+    paths += ["", "*", "a", "ab/c", "/:x", "/*", "/a/*", "/a/:x", "/c", "/a/c/b", "//", "/a/b/a/b", "a/b", "/\xff", "/a%2fb", "b/",
+              # segments spelled like the names a trie implementation might use internally for its parameter / method nodes
+              "/:param", "/:any", "/a/:param", "/a/:any", "/:any/b", "/:param/:any", "/param", "/any", "/get", "/a/get", "/a/*/b", "/:", "/a/:"]
     paths = sorted(set(paths))
     if mc:
         meths = ("GET", "FOO")
